@@ -1,3 +1,17 @@
-From AB Require Import Desc Generated GeneratedWf.
+(* C06 - what the model says is what the printed text says.
+   The re-parse needs the real lexer and LALR engine (an oracle): that half is decided on every run by the
+   monitor (print, re-parse with the real parser, field-by-field comparison). Proved here: the formatted
+   layout of every generated class enumerates its declared fields exactly once in declaration order, and
+   every `or`-chain that places an optional child (pivot) is the scheme's chain - the facts the edit
+   algorithms' separator placement relies on (C06_partial: the separation invariant itself is C03's). *)
+From AB Require Import Desc Generated GeneratedWf DescProofs.
+
 Theorem C06_generated_classes_wf : forall c, In c classes -> wf_desc c = true.
 Proof. exact generated_wf_each. Qed.
+
+Theorem C06_formatted_order_partial :
+  forall c, In c classes -> fmt_fields (c_formatted c) = field_names c.
+Proof. intros c H. apply wf_formatted_order. exact (generated_wf_each c H). Qed.
+
+Theorem C06_pivots_are_scheme_partial : forall c, In c classes -> pivots_ok c = true.
+Proof. intros c H. destruct (wf_desc_parts c (generated_wf_each c H)) as (_&_&_&_&_&_&_&_&_&P&_). exact P. Qed.
